@@ -88,6 +88,17 @@ class Expand(_Bodies):
                     rep = ast.If(test=ast.Compare(left=copy.deepcopy(k), ops=[ast.In()], comparators=[copy.deepcopy(d)]),
                                  body=[ast.Expr(value=ast.Call(func=ast.Attribute(value=sub(ast.Load()), attr="append", ctx=ast.Load()), args=[v], keywords=[]))],
                                  orelse=[ast.Assign(targets=[sub(ast.Store())], value=ast.List(elts=[copy.deepcopy(v)], ctx=ast.Load()))])
+            if rep is None and isinstance(st, ast.Expr) and isinstance(st.value, ast.Call) and isinstance(st.value.func, ast.Attribute) \
+                    and st.value.func.attr == "setdefault" and len(st.value.args) == 2 and not st.value.keywords \
+                    and _simple(st.value.func.value) and _simple(st.value.args[1]):
+                # d.setdefault(k, v) as a statement  ->  [t = k;] if k not in d: d[k] = v        (v simple: evaluating it is no effect)
+                d, k, v = st.value.func.value, st.value.args[0], st.value.args[1]
+                if not _simple(k):
+                    tmp = ast.Name(id=f"_sd_key_{getattr(st, 'lineno', 0)}", ctx=ast.Load())
+                    out.append(_loc(ast.Assign(targets=[ast.Name(id=tmp.id, ctx=ast.Store())], value=k), st))
+                    k = tmp
+                rep = ast.If(test=ast.Compare(left=copy.deepcopy(k), ops=[ast.NotIn()], comparators=[copy.deepcopy(d)]),
+                             body=[ast.Assign(targets=[ast.Subscript(value=copy.deepcopy(d), slice=copy.deepcopy(k), ctx=ast.Store())], value=v)], orelse=[])
             if rep is None and isinstance(st, ast.Assign) and len(st.targets) == 1 and isinstance(st.targets[0], ast.Name) and isinstance(st.value, ast.Call) \
                     and isinstance(st.value.func, ast.Attribute) and st.value.func.attr == "pop" and len(st.value.args) == 2 and not st.value.keywords \
                     and isinstance(st.value.args[1], ast.Constant) and st.value.args[1].value is None and _simple(st.value.func.value) and _simple(st.value.args[0]):
